@@ -1,6 +1,8 @@
 (* driver for C20: case "<termtype> <hexstream> <cuts|-> <tok> <tok> ..." where the tokens are
    what the system's libtermkey finds in the WHOLE stream (harness/C20_tok.c).
-   model : InputDefs.push_chunks over the chunks, with the abstract tokenizer instantiated by
+   the cuts may carry a gap ("<cut>+<usec>"): virtual time that passes after the chunk, before
+   the time-out is polled.
+   model : InputDefs.tpush / tpoll over the chunks (the drain and feed loops of push_bytes), with the abstract tokenizer instantiated by
            the dictionary { bytes of a token |-> its key } (shortest match; a non-empty buffer
            that starts with no known token is "again"), buffer capacity 256.
            VERIF_C20_PINNED=1 uses push_bytes_pinned (the truncating push).
@@ -30,11 +32,15 @@ let parse_case line =
   | _tt :: hex :: cuts :: toks ->
     let bytes = Array.of_list (bytes_of_hex hex) in
     let n = Array.length bytes in
-    let cuts = if cuts = "-" then [] else List.map int_of_string (String.split_on_char ',' cuts) in
+    let cuts = if cuts = "-" then [] else
+        List.map (fun c -> match String.split_on_char '+' c with
+            | [p] -> (int_of_string p, 0) | [p; g] -> (int_of_string p, int_of_string g) | _ -> failwith "cut")
+          (String.split_on_char ',' cuts) in
+    (* (chunk, gap after it); the rest of the stream is pushed last, with no gap *)
     let rec chunks pos = function
-      | [] -> [Array.to_list (Array.sub bytes pos (n - pos))]
-      | c :: r -> if c < pos || c > n then chunks pos r else Array.to_list (Array.sub bytes pos (c - pos)) :: chunks c r in
-    let chunks = List.map (List.map zi) (chunks 0 cuts) in
+      | [] -> [(Array.to_list (Array.sub bytes pos (n - pos)), 0)]
+      | (c, g) :: r -> if c < pos || c > n then chunks pos r else (Array.to_list (Array.sub bytes pos (c - pos)), g) :: chunks c r in
+    let chunks = List.map (fun (c, g) -> (List.map zi c, g)) (chunks 0 cuts) in
     let dict = Hashtbl.create 64 in
     let maxlen = ref 0 in
     let pos = ref 0 in
@@ -73,20 +79,32 @@ let pr_event = function
   | EvMouse (t, b, l, c, m) -> Printf.sprintf "m%d:%d:%d:%d:%d" (int_of_z t) (int_of_z b) (int_of_z l) (int_of_z c) (int_of_z m)
 let cap = nat_of_int 256
 let pinned = (try Sys.getenv "VERIF_C20_PINNED" = "1" with Not_found -> false)
+let wait = zi 50000
+let stale = (try Sys.getenv "VERIF_C20_STALE" = "1" with Not_found -> false)
 let model line =
   let (chunks, tok, _, _) = parse_case line in
-  (* one push per chunk, the time-out state printed after each (as the harness does) *)
+  (* one push per chunk, then its gap, then the poll of the time-out (as the harness does) *)
   let res =
-    List.fold_left (fun acc c -> match acc with
+    List.fold_left (fun acc (c, g) -> match acc with
         | None -> None
-        | Some (out, s) ->
-          (match (if pinned then push_bytes_pinned tok cap s c else push_bytes tok cap s c) with
-           | Some (e, s') -> Some (out @ List.map pr_event e @ [Printf.sprintf "a%d" (if s'.i_armed then 50 else -1)], s')
-           | None -> None))
-      (Some ([], ist0)) chunks in
+        | Some (out, now, ts) ->
+          let pushed =
+            if pinned then
+              (match push_bytes_pinned tok cap ts.t_in c with
+               | Some (e, s') -> Some (e, { t_in = s'; t_deadline = (if s'.i_armed then Some (z_of_int (now + 50000)) else None) })
+               | None -> None)
+            else tpush tok cap wait stale (zi now) ts c in
+          (match pushed with
+           | None -> None
+           | Some (e, ts') ->
+             let now' = now + g in
+             (match tpoll (zi now') ts' with
+              | None -> Some (out @ List.map pr_event e @ ["FORCED"], now', ts')
+              | Some m -> Some (out @ List.map pr_event e @ [Printf.sprintf "a%d" (int_of_z m)], now', ts'))))
+      (Some ([], 0, tst0)) chunks in
   match res with
   | None -> "NONE fuel exhausted"
-  | Some (out, s) -> String.concat " " (out @ [Printf.sprintf "h%d" (int_of_z s.i_held)])
+  | Some (out, _, ts) -> String.concat " " (out @ [Printf.sprintf "h%d" (int_of_z ts.t_in.i_held)])
 let parse_obs o =
   let evs = ref [] and held = ref 0 and armed = ref false in
   List.iter (fun t ->
